@@ -1005,10 +1005,8 @@ def r3_10(ctx):
             pol = paths.branch_polarity(f, term, idx)
             if pol is None or cond is None:
                 return facts
-            c_, p2 = paths.normalise_cond(f, cond, pol)
-            if c_ is not None and p2 and any(
-                    x['k'] == 'bin' and x['op'] == '&' and cu.const_of(cu.strip_casts(f, f.kid(x, 1))) == dot_all
-                    for x in f.walk(c_)) and c_['k'] == 'bin' and c_['op'] == '&':
+            bt = paths.bit_test_outcome(f, cond, pol)
+            if bt is not None and bt[1] == dot_all and bt[2]:
                 return frozenset(facts) | {'dotall'}
             return facts
 
